@@ -218,6 +218,8 @@ OnFlushopMissing ==   \* a Tflush found its target being worked on by an impleme
 OnStall ==   \* the server never became quiescent: a goroutine waits for a lock another one holds across a schedule
              \* point or an implementation call (or spins) -- requests are being delayed by an unrelated one
   /\ Verdict("C08", "stalled", E.what)
+  \* ... after the client of this case had disconnected: its teardown holds up everybody else
+  /\ (E.closed => Verdict("C11", "stalled-after-disconnect", E.what))
   /\ UNCHANGED <<sent, replied, away, answers, called, answeredN, live, maybe, nclosed, cclosed, dseen>>
 
 OnBystander ==   \* a request on another connection, driven with this connection's goroutines paused
